@@ -6,8 +6,8 @@ Three ties to the code (model: coq/theories/Sim.v, theorems: coq/props/C01.v):
       *program* (harness/probes.py: CRN on/off, births, untracking, state machine, replace/list pipelines with rate
       post-processing, lookup tables, adding/concatenating observers, per-simulant step modifiers, snoozing, a
       RESIDUAL_CHOICE keeper) is run in fresh sub-processes that differ in PYTHONHASHSEED, in pollution of the global
-      numpy.random / random generators before and BETWEEN steps, in the number of contexts created earlier in the
-      process, and in the driver (run_simulation | manual setup/initialize/step.../finalize | InteractiveContext.step |
+      numpy.random / random generators before and BETWEEN steps, in heap churn (freed numpy buffers full of garbage, so that
+      reads of uninitialised memory differ), in the number of contexts created earlier in the process, and in the driver (run_simulation | manual setup/initialize/step.../finalize | InteractiveContext.step |
       take_steps | run | run_for+run_until).  The SHA-1 of the canonicalised state table (columns sorted, labels sorted,
       floats as hex, times as integer ns, dtypes included) after EVERY step, of the final table and of the results
       must agree with the reference environment.  This is the direct oracle.
@@ -94,7 +94,8 @@ def gen_envs(rng, program, n_groups, per_group, hashseeds=None):
             groups.append({"hashseed": hashseeds[g], "envs": []})
         while len(groups[g]["envs"]) < per_group:
             d = todo.pop() if todo else rng.choice(drivers)
-            e = {"driver": d, "pollute": rng.choice(POLLUTE), "prior": rng.choice([0, 0, 1, 2, 3])}
+            e = {"driver": d, "pollute": rng.choice(POLLUTE), "prior": rng.choice([0, 0, 1, 2, 3]),
+                 "churn": rng.choice([0, 1, 2, 3, 3])}            # heap churn level (reference environment: none)
             if d == "i_take_steps":
                 e["chunk"] = rng.choice([1, 2, 3, 5])
             groups[g]["envs"].append(e)
@@ -285,7 +286,7 @@ def evaluate(case, futs):
     nontrivial = bool(ref.get("digests")) and (program["pop"] > 0 or any(c["kind"] == "births" for c in program["components"]))
     obs.update(steps=len(ref.get("digests", [])), results=ref.get("results"), rows_final=len(ref["rows"][-1]) if ref.get("rows") else 0)
     tags = probes.program_tags(program) + tuple(f"driver:{e['driver']}" for e in envs) + \
-        tuple(f"pollute:{e['pollute']}" for e in envs) + (f"steps:{min(len(ref.get('digests', [])), 12)}",)
+        tuple(f"pollute:{e['pollute']}" for e in envs) + tuple(f"churn:{e.get('churn', 0)}" for e in envs) + (f"steps:{min(len(ref.get('digests', [])), 12)}",)
     return Result(ok=ok, msg=msg, coq=coq, key=_key(program) if nontrivial else None, obs=obs, tags=tags)
 
 
